@@ -10,8 +10,11 @@ use std::alloc::{GlobalAlloc, Layout, System};
 use std::cell::Cell;
 use std::io::Write;
 
-/// Requests above this size are refused while the accounting is on.
-pub const HARD_CAP: usize = 256 << 20;
+/// Requests above this size are refused while the accounting is on. (Far above
+/// anything a decoder needs for inputs of at most some 100 KiB, and low enough
+/// that an untrusted count which IS turned into a reservation does not cost a
+/// few hundred MiB of page faults per case.)
+pub const HARD_CAP: usize = 16 << 20;
 
 pub struct Tracking;
 
